@@ -340,7 +340,7 @@ class Env:
         self.tie_mismatches = 0
         self.notes = []
         self.exhaustive = False
-        self.wd = os.path.join(CACHE, "run", prop_id)
+        self.wd = os.path.join(CACHE, "run", prop_id + os.environ.get("VERIF_RUN_TAG", ""))   # VERIF_RUN_TAG: concurrent runs of one property
         self.known = load_known()
         self._tie_round = 0
         self.r_log = []            # every ristretto (ctx "R") harness case with its output, tied by tie_ristretto()
